@@ -54,6 +54,7 @@ type Engine struct {
 	jsonShapeHook func(x *Exec, v Term, g Term, i *ssa.Call)
 	scc         map[*ssa.Function]int
 	sliceTables map[*ssa.Global][]Term // package-level slices initialised from a composite literal
+	overlay     map[string][]byte
 }
 
 func (e *Engine) sameSCC(a, b *ssa.Function) bool {
@@ -116,6 +117,7 @@ func load(repo string) (*Engine, error) {
 	}
 	e.weaveErrs = w.errs
 	ov := w.overlay()
+	e.overlay = ov
 	cfg := &packages.Config{
 		Mode:       packages.LoadAllSyntax,
 		Dir:        repo,
